@@ -10,6 +10,8 @@ CONSTANTS
   Runnable = {"C"}
   PeerLevels = {"OPTIONAL","REQUIRED"}
   Modes = {"fresh","resumed"}
+  PolicySources = {"base","hook"}
+  IntegScope = "all"
   EstChoices = {"Honest","OmitECDH","TruncateECDH","NoCommonCipher"}
   Deviations = {"AnswerAuthNo","AnswerEncNo","OmitECDH","TruncateECDH","RandomECDH","ForeignECDH","NoCommonCipher","SelectUnofferedBit","SelectSeveralBits","SelectZero","ReportDenied","PostAuthDenied","PostAuthInClear","ResumeKeyless","ReplyWithoutKey"}
   MaxDev = 2
